@@ -35,7 +35,7 @@ RULE = (
     "asarray, column/row/transposed views, in-place sort, Index storage through values/array/to_numpy/asarray), write "
     "into a constructor argument, call a transformer (22 settings) / decision maker / pipeline / RanksComparator "
     "statistics / RankInvariantChecker(repeat=1) / selection+copy+diff). Thorough adds ALL histories of length <= 4 over "
-    "a 10-symbol alphabet on a fixed 3x2 matrix. Non-trivial: at least one write or call was carried out; distinct by "
+    "a 9-symbol alphabet (4 reads, 3 writes, argument write, transform) on a fixed 3x2 matrix. Non-trivial: at least one write or call was carried out; distinct by "
     "case hash. Oracle: snapshot before == snapshot after every step (tobytes / exact labels; axis names excluded)."
 )
 ASSUMPTIONS = [
@@ -547,9 +547,8 @@ def _case(rng, length=None):
 _EX_DM = {"matrix": [[1.0, 2.0], [2.0, 3.0], [3.0, 4.0]], "objectives": [1, 1], "weights": [0.25, 0.75],
           "alternatives": ["A", "B", "C"], "criteria": ["x", "y"], "labels": "str", "ctor": "df", "objdtype": "object-int",
           "family": "dyadic"}
-_EX_READS = [("dm.weights", ()), ("dm.objectives", ()), ("dm.alternatives", ()), ("dm.dominance.dominators_of(a)", (0,)),
-             ("res.values", ())]
-_EX_ALPHABET = ["R0", "R1", "R2", "R3", "R4", "Wlast-a", "Wlast-b", "Wfirst", "M", "C"]
+_EX_READS = [("dm.objectives", ()), ("dm.alternatives", ()), ("dm.dominance.dominators_of(a)", (0,)), ("res.values", ())]
+_EX_ALPHABET = ["R0", "R1", "R2", "R3", "Wlast-a", "Wlast-b", "Wfirst", "M", "C"]
 
 
 def _ex_history(word):
@@ -578,7 +577,7 @@ _EX_CHANNEL = {  # explicit channels of the exhaustive alphabet, by type of the 
     "Wlast-b": {"Series": "index.values", "ndarray": "setitem", "_ACArray": "setitem", "DataFrame": "columns.values"},
     "Wfirst": {"Series": "iloc", "ndarray": "setflags_nd_setitem", "_ACArray": "view", "DataFrame": "iloc"},
 }
-_EX_TYPE = {"dm.weights": "Series", "dm.objectives": "Series", "dm.alternatives": "_ACArray",
+_EX_TYPE = {"dm.objectives": "Series", "dm.alternatives": "_ACArray",
             "dm.dominance.dominators_of(a)": "ndarray", "res.values": "ndarray"}
 
 
@@ -600,7 +599,7 @@ def _exhaustive():
 
 def gen(ctx):
     rng = ctx.rng
-    cases = [_case(rng) for _ in range(ctx.n(160, 3000))]
+    cases = [_case(rng) for _ in range(ctx.n(130, 1500))]
     # directed: read X / write through every channel of its type / re-read X, for every accessor instance
     for _ in range(ctx.n(12, 60)):
         c = _case(rng, length=1)
